@@ -36,6 +36,18 @@ CHECKS = {
          "DESIGN.md §3 C18",
          "In every state of every order recover_from_standstill is triggered on the real pool: it must not panic (also before anything is finalized) nor change state; the bundle must contain certificates proving finalized_slot(), every certificate held for later slots and every own vote for later slots; every element must pass validation; a fresh real pool fed only the bundle must reach the same finalized_slot() and the same parents_ready for the following window.",
          "Pool side only so far; the Votor forwarding part is checked with the E1 machinery (C05). 3 equal stakes, own validator 0."),
+ "C05": ("model_checking", "explicit-state BFS (depth-bounded) over event sequences of one real node core (real PoolImpl + real Votor, own broadcasts looping back through the network) with a monitor automaton over the node's emitted votes", "E1",
+         "DESIGN.md §3 C05",
+         "All sequences up to the depth bound of foreign votes/certificates (other validators adversarial, one foreign vote = 45% stake), block arrivals (several per slot, children before parents), InvalidBlock/FirstShred, timeouts in timer order, loop-back deliveries of the node's own broadcasts and Votor queue lag are executed on the real Votor+Pool; every vote the node emits is judged by the monitor (one initial vote per slot, parent rule, finalize only for the own-notarized block after its notar certificate and never with skip/fallback votes, fallback votes only after the matching pool signal, own key) and fed to a fresh pool that must never call it slashable.",
+         "Depth-bounded (quick 6, thorough 9) over four alphabets (slot 1, slots 1-2, window boundary 3-5, fallbacks with lag); duplicate timer tasks for one window are not modelled; conflicting finalization evidence forged by the unlimited adversary is out of scope (path pruned)."),
+ "C09": ("exploration", "exhaustive enumeration of all signer subsets and a structured mutation menu of votes and certificates through the real decoder and ValidatedVote/ValidatedCert::try_new, oracle = unique honest BLS signature + distinct-stake arithmetic", "E3",
+         "DESIGN.md §3 C09",
+         "For epochs of 1-5 (thorough 7) validators with equal / tight / skewed stakes: every vote kind x signer with every field and signature mutation, every signer subset of every certificate type (all pairs of halves incl. overlapping for mixed types), and the certificate mutation menu (declared stake, slot, hash, re-tags, halves swapped/copied, bitmask length/garbage/out-of-range, aggregate corrupted/replaced) must be admitted iff authentic and backed by the type's threshold of distinct stake; never a panic.",
+         "BLS signatures are deterministic and unique, so 'authentic' is decided by byte equality with the honestly produced signature; non-canonical bitmask lengths that are authentic and sufficient are don't-care."),
+ "C11": ("exploration", "exhaustive enumeration over payload lengths x shredders x parent x structured shred subsets, oracle = field-by-field and byte-for-byte comparison with the leader's output", "E3",
+         "DESIGN.md §3 C11",
+         "Every serialized payload length 0..=max+64 (thorough; quick: every 61st plus all boundary regions) for all four shredders with and without parent is shredded and restored from each subset of the family (>=32: slice and all 64 shreds identical to the leader's and valid under the signed root; <32: NotEnoughShreds); oversize slices are refused; on every error path (too few shreds, shreds of another shredder, shreds mixed from two signed slices) the supplied array must be unchanged.",
+         "2^64 subsets are not enumerable: the subset family targets the code's index bookkeeping (windows, low/high splits, prefixes, single missing, cyclic runs); MDS property of reed-solomon-simd is trusted."),
 }
 
 NOT_YET = {}
@@ -74,6 +86,8 @@ def main():
         "engines": [
             {"name": "E2", "path": "/verif/harness/src/engine.rs", "serves_properties": sorted(k for k, v in CHECKS.items() if v[2] == "E2"),
              "kind_free_text": "level-synchronous replay-based explicit-state BFS over operation sequences of real components, dedup on a digest of the complete real state, reference model compared on every transition"},
+            {"name": "E1", "path": "/verif/harness/src/nodesys.rs", "serves_properties": sorted(k for k, v in CHECKS.items() if v[2] == "E1"),
+             "kind_free_text": "explicit-state exploration of real node cores (PoolImpl + Votor) with harness-owned network, timers and block arrivals"},
             {"name": "E3", "path": "/verif/harness/src", "serves_properties": sorted(k for k, v in CHECKS.items() if v[2] == "E3"),
              "kind_free_text": "exhaustive nested-loop enumeration of a finite structured input domain of pure functions, oracle = independent recomputation"},
         ],
